@@ -67,6 +67,9 @@ def pattern_list(rng, paths, neg_p=0.3):
         out.append(pat)
         if rng.random() < 0.1:
             out.append(pat)
+    if len(out) >= 2 and rng.random() < 0.2:
+        # a pattern stated again AFTER other patterns (re-asserting a decision that an exception in between had flipped)
+        out.append(rng.choice(out[:-1]))
     return out
 
 
